@@ -178,6 +178,29 @@ def overflow_shapes():
     return out
 
 
+def manyfield_shapes():
+    """derived structs (named and tuple flavour) with MORE THAN 26 fields - 27, 29, 40, 52, 53 - always
+    present: a derive has no arity limit, every field's reads / writes / setup must be there.  Every
+    third field writes a resource of its own, the others read one of 8 shared resources; the last
+    three fields (Read, Write, Read) use fresh resources, so each of them alone shows in reads(),
+    writes() and setup; one Phantom field in the middle can carry the extra lifetime"""
+    out = []
+    for n in (27, 29, 40, 52, 53):
+        for style in ("named", "tstruct"):
+            mem, nxt = [], 9
+            for i in range(n - 3):
+                if i == n // 2:
+                    mem.append(leaf("Phantom"))
+                elif i % 3 == 0:
+                    mem.append(leaf("Write" if nxt <= 18 else ("WriteExpect" if i % 2 else "OptWrite"), nxt))
+                    nxt += 1
+                else:
+                    mem.append(leaf(["Read", "ReadExpect", "OptRead"][i % 3], i % 8 + 1))
+            mem += [leaf("Read", nxt), leaf("Write", nxt + 1), leaf("Read", nxt + 2)]
+            out.append(compose(style, mem))
+    return out
+
+
 def rand_leaf(rng, nres, kinds=ALL_KINDS):
     k = rng.choice(kinds)
     r = rng.randint(1, nres)
@@ -226,7 +249,7 @@ PHANTOMS = ["u8", "str", "dyn Send", "&'a u8", "D0", "(Write<'a, D1>,)", "[u32]"
 
 
 class Spelling:
-    def __init__(self, rng, case_id, tb, nres_total, bare_nodes=(), twin=False):
+    def __init__(self, rng, case_id, tb, nres_total, bare_nodes=(), twin=False, pdef_res=()):
         """twin: the type is spelled GENERIC in its resource types (P0, P1, ..: type parameters of the
         surrounding generic code); derived structs then take every resource type / composite member
         through their own type parameters"""
@@ -263,6 +286,9 @@ class Spelling:
             else:
                 self.conc.append("N%d" % c)     # no Default: only Expect / Option forms (or unused)
         self.used = used
+        # resources whose Default::default() panics: the X types (Default, but "must be inserted explicitly")
+        for k, r in enumerate(sorted(pdef_res)[:4]):
+            self.conc[r - 1] = "X%d" % k
 
     def leaf(self, x, param=None):
         rng = self.rng
@@ -472,11 +498,19 @@ def generate(mc_files, arity_files, seed, n_mc, n_arity, n_rot, n_deep, n_wide, 
     cases = []
 
     nsiblings = [0]
+    npdef = [0]
 
     def add(origin, tb, nres_shape, runs, extra, bare_nodes=()):
         cid = len(cases) + 1
         nres_total = nres_shape + (1 if nres_shape < NCONC and rng.random() < 0.8 else 0)
-        sp = Spelling(rng, cid, tb, nres_total, bare_nodes)
+        # composed shapes only (TLC's reference lines assume ordinary Defaults): in a share of the cases
+        # one or two accessed resources are of a type whose Default panics
+        pdef_res = set()
+        used0 = sorted({x["res"] for x in tb if x["res"]})
+        if not origin.startswith("mc") and used0 and rng.random() < 0.25:
+            pdef_res = set(rng.sample(used0, min(len(used0), rng.choice([1, 1, 2]))))
+        sp = Spelling(rng, cid, tb, nres_total, bare_nodes, pdef_res=pdef_res)
+        npdef[0] += len(pdef_res)
         ty = sp.ty(1)
         # dynamic-id siblings: cells (T, 1) / (T, 2) of Rust types the shape accesses statically; they are
         # further abstract resources that the shape never mentions (the model: never touched)
@@ -495,7 +529,8 @@ def generate(mc_files, arity_files, seed, n_mc, n_arity, n_rot, n_deep, n_wide, 
                           "held": r["held"] + [0] * pad, "exp": r["exp"]})
         cases.append({"id": cid, "origin": origin, "ty": ty, "defs": sp.defs, "shape": tb, "nres": nres_total,
                       "normalised": sp.normalised, "nbare": sp.nbare,
-                      "conc": sp.conc, "runs": runs2, "extra": extra})
+                      "conc": sp.conc, "runs": runs2, "extra": extra,
+                      "pdef": [(r + 1) in pdef_res for r in range(nres_total)]})
 
     mc = []
     for f in mc_files:
@@ -525,6 +560,9 @@ def generate(mc_files, arity_files, seed, n_mc, n_arity, n_rot, n_deep, n_wide, 
     # always: wide nested shapes whose flattened reads / writes exceed 32 ids
     for tb in overflow_shapes():
         add("gen-overflow", tb, nres_of(tb), [], extra_gen)
+    # always: derived structs with more than 26 fields
+    for tb in manyfield_shapes():
+        add("gen-manyfields", tb, nres_of(tb), [], extra_gen)
     # always: derived structs with a bare type-parameter member (first / middle / last; leaf, tuple, struct)
     for tb, bare in bare_shapes():
         add("gen-bare", tb, nres_of(tb), [], extra_gen, bare)
@@ -563,7 +601,7 @@ def generate(mc_files, arity_files, seed, n_mc, n_arity, n_rot, n_deep, n_wide, 
         if not mine and not mytwins:
             placeholder(rs)
             continue
-        dcases = [{k: c[k] for k in ("id", "origin", "ty", "shape", "nres", "conc", "runs", "extra")}
+        dcases = [{k: c[k] for k in ("id", "origin", "ty", "shape", "nres", "conc", "runs", "extra", "pdef") if k in c}
                   for c in mine + [h for pr in mytwins for h in pr]]
         h = hashlib.sha1(json.dumps(dcases, sort_keys=True).encode()).hexdigest()[:16]
         dpath = "%s/desc_%s.json" % (desc_dir, bin_name)
@@ -601,6 +639,8 @@ def generate(mc_files, arity_files, seed, n_mc, n_arity, n_rot, n_deep, n_wide, 
              "structs_without_lifetime_turned_into_tuples": sum(c["normalised"] for c in cases),
              "members_spelled_as_bare_type_parameter": sum(c["nbare"] for c in cases),
              "dynamic_id_sibling_cells": nsiblings[0],
+             "resources_with_panicking_default": npdef[0],
+             "max_struct_fields": max([len(x["kids"]) for c in cases for x in c["shape"] if x["t"] in ("named", "tstruct")] + [0]),
              "max_flattened_reads": max([sum(1 for x in c["shape"] if x["kind"] in ("Read", "ReadExpect", "OptRead", "ReadH")) for c in cases] + [0]),
              "max_flattened_writes": max([sum(1 for x in c["shape"] if x["kind"] in ("Write", "WriteExpect", "OptWrite", "WriteH")) for c in cases] + [0]),
              "custom_handler_leaves": sum(1 for c in cases for x in c["shape"] if x["kind"] in H_KINDS),
